@@ -34,7 +34,12 @@ SPEC = {
                    "StackCounter comes from the public constructor counter.NewStack on the unopened default file (50%), a "
                    "private unmapped file, or a private file opened (mapped) first; pairs of NewStack calls with ONE name and "
                    "two depths on chains sharing their top frames; ReadStack (= countertest.ReadStackCounter) observed in "
-                   "that state and checked to be keyed by the expanded names with the counters' values; "
+                   "that state and checked to be keyed by the expanded names with the counters' values; call stacks of EQUAL "
+                   "length that agree on their innermost frames and differ in one link further out (depth 33..256); long "
+                   "runs of frames of one package in a mapped file (encoded name short, expanded name on either side of 4096 "
+                   "bytes) with the real Parse of that file (stack counters under their expanded names + an ordinary "
+                   "counter); every case runs under a 20 s watchdog (a call that does not return is reported as PROP "
+                   "terminates with its input); "
                    "cache read through an injected exporter. distinct = distinct case lines; every case compares "
                    "implementation output with the model and evaluates the property oracles on the implementation output"),
         Suite(name="stackconc", harness="vh_stackconc", runner="stackconc",
